@@ -13,7 +13,8 @@ THEOREMS = {
            + ["SodiumVerif.Sched.transaction_glitch_free", "SodiumVerif.Bridge.sched_refines_spec", "SodiumVerif.Bridge.sched_refines_spec_static",
               "SodiumVerif.Bridge.sched_computes_fireTable", "SodiumVerif.Bridge.sched_refines_spec_history"],
     "C04": [S + n for n in ["val_stepTxn_hold", "hold_updated", "hold_unchanged", "hold_initial", "val_stepTxn_csink", "accum_fires", "val_stepTxn_accum",
-                            "accum_is_foldl", "accum_is_foldl_fresh", "collect_fires", "val_stepTxn_collect", "collect_state_is_foldl", "collect_output", "cell_next_value"]],
+                            "accum_is_foldl", "accum_is_foldl_fresh", "collect_fires", "val_stepTxn_collect", "collect_state_is_foldl", "collect_output", "cell_next_value",
+                            "accum_eq_loop_hold_snapshot", "accum_eq_loop_hold_snapshot_fresh"]],
     "C05": [S + n for n in ["switchs_fires", "switchs_ignores_selector_update", "switchc_fires_on_switch", "switchc_value", "lift_inv_switchc"]],
     "C06": [G + "collect_sound_total", G + "client_never_loses_a_held_object", G + "GcInv.bounded", G + "collect_sound",
             "SodiumVerif.GcScript.script_sound", G + "collectCycles_terminates", G + "collect_frees_only_garbage",
@@ -34,7 +35,7 @@ THEOREMS = {
     "C12": [T + n for n in ["log_of_close", "log_of_close_flat", "prePost_before_post", "commit_before_deferred", "commit_precedes_deferred", "deferred_own_transaction",
                             "deferred_fifo", "post_immediate_when_idle", "phases_match", "hold_commit_queue", "once_detach_queue", "send_clear_queue", "defer_queue",
                             "public_post_opens_transaction"]],
-    "C13": [S + n for n in ["cell_next_value", "cell_has_value", "lift_inv_mapc", "lift_inv_lift2", "lift_inv_liftn", "lift_inv_switchc", "lift_inv_cloop",
+    "C13": [S + n for n in ["mapc_eq_hold_map_updates", "mapc_eq_hold_map_updates_fresh", "cell_next_value", "cell_has_value", "lift_inv_mapc", "lift_inv_lift2", "lift_inv_liftn", "lift_inv_switchc", "lift_inv_cloop",
                             "mapc_inv_step", "lift2_inv_step"]],
     "C14": [T + n for n in ["leave_inner", "quiescent_after_close", "nested_close_transparent", "close_idempotent", "close_done", "close_fresh", "nesting_balanced",
                             "bracket_eq_transaction", "empty_txn_silent", "scoped_close_once"]],
@@ -46,7 +47,7 @@ THEOREMS = {
 MODULES = {
     "C01": ["SodiumVerif.Props.C01", "SodiumVerif.Props.C14", "SodiumVerif.Props.C10"],
     "C02": ["SodiumVerif.Props.C02", "SodiumVerif.Props.C03", "SodiumVerif.Props.Refine", "SodiumVerif.Props.RefineHist"],
-    "C04": ["SodiumVerif.Props.C04", "SodiumVerif.Props.C13"],
+    "C04": ["SodiumVerif.Props.C04", "SodiumVerif.Props.C13", "SodiumVerif.Props.Expand"],
     "C05": ["SodiumVerif.Props.C05"],
     "C06": ["SodiumVerif.Props.C06", "SodiumVerif.Props.StructMem"],
     "C07": ["SodiumVerif.Props.C07", "SodiumVerif.Props.C06", "SodiumVerif.Props.StructMem"],
@@ -54,7 +55,7 @@ MODULES = {
     "C10": ["SodiumVerif.Props.C10"],
     "C11": ["SodiumVerif.Props.C11", "SodiumVerif.Props.C11b", "SodiumVerif.Props.C11c"],
     "C12": ["SodiumVerif.Props.C12"],
-    "C13": ["SodiumVerif.Props.C13"],
+    "C13": ["SodiumVerif.Props.C13", "SodiumVerif.Props.Expand"],
     "C14": ["SodiumVerif.Props.C14"],
     "C15": ["SodiumVerif.Props.C15", "SodiumVerif.Props.C02", "SodiumVerif.Props.C04"],
     "C17": ["SodiumVerif.Props.C17"],
